@@ -8,7 +8,7 @@ EXPLANATION = ("Decides on the MIR of the current tree: who may wake a waiting t
                "(W1), that notify_one/notify_all unpark exactly the popped/drained waiters (W2), the park-token machine of rt::park and "
                "Thread::set_unparked (W3), the writers of the Notify flags incl. the at-most-one spurious return (W4) and the wiring of "
                "spawn/join/block_on to their Notify (W5). Lost or misdirected wake-ups as behaviour over all interleavings are not decided."
-               " The notification flag is consumed on every non-spurious return and only where the acquire follows (W4 pairing); G0/G1 cross-check wake/unpark/notify/wait.")
+               " The notification flag is consumed on every non-spurious return and only where the acquire follows (W4 pairing); G0/G1 cross-check wake/unpark/notify/wait. A thread that returns from Condvar::wait has removed its own entry from the waiter queue however it was resumed (W6).")
 RULE_TEXT = "rule instances = wake/transition sites, ordered steps, flag writers; non-trivial when matched to concrete MIR sites"
 LEVEL_NOTE = "necessary conditions only"
 
@@ -442,3 +442,5 @@ def run(ctx):
     W3(ctx)
     W4(ctx)
     W5(ctx)
+    from . import round6
+    round6.W6(ctx)
